@@ -6,6 +6,7 @@ CONSTANTS
   Types = {"result", "error", "errorBare", "set", "get"}
   OpenKinds = {"plain", "sm", "smr", "resumed"}
   Cids = {"fresh", "empty", "dup"}
+  Bodies = {"none"}
   Attempts = {"authfail", "bindfail", "userabort", "precut", "abandon"}
   IdRule = "replace"
   MaxHist = 99
